@@ -283,14 +283,14 @@ def shard_offsets(spec):
 
 def run(ctx):
     acc = Acc()
+    step = 0x110000 // 64 + 1
+    ctx.pmap(shard_table, [(lo, min(lo + step, 0x110000)) for lo in range(0, 0x110000, step)], into=acc)
     if ctx.quick:
         # every index up to 260, then +/-3 around every power of two up to 8192 (block, buffer and window sizes)
         offs = sorted(set(range(0, 261)) | {2 ** k + d for k in range(8, 14) for d in range(-3, 4)})
     else:
         offs = list(range(0, 8300))
     ctx.pmap(shard_offsets, [offs[i::96] for i in range(96)], into=acc)
-    step = 0x110000 // 64 + 1
-    ctx.pmap(shard_table, [(lo, min(lo + step, 0x110000)) for lo in range(0, 0x110000, step)], into=acc)
     cps = codepoints(ctx.quick)
     nsh = 64 if ctx.quick else 1024
     ctx.pmap(shard_positions, [cps[i::nsh] for i in range(nsh)], into=acc)
